@@ -615,6 +615,10 @@ def check_skipped_messages(ctx):
                     facs = [a.targets[0].id for a in lp.body if isinstance(a, ast.Assign) and len(a.targets) == 1 and isinstance(a.targets[0], ast.Name)
                             and U(a.value).replace(' ', '') in ('[clforclinself.cliquesif%sincl]' % x, 'self.neighbors[%s]' % x, 'self.neighbors.get(%s,[])' % x)]
                     ok = any(t in ('len(%s)==1' % f, 'len(%s)<=1' % f, 'len(%s)<2' % f) for f in facs)
+                    if any(t in ('len(%s)==0' % f, 'not%s' % f, 'len(%s)<1' % f) for f in facs):
+                        ctx.ob('skipped-messages', fi, st, True, 'a variable that lies in no factor has no message to send or receive: skipping it changes nothing',
+                               construct='skip in the variable sweep')
+                        continue
                     if not ok:
                         raise AnalysisError('%s: the variable sweep skips nodes under `%s`, which is in no recognised form' % (q, U(st.test)[:60]))
                     ctx.ob('skipped-messages', fi, st, True, 'a variable with a single factor sends that factor the empty sum: skipping it leaves the zero message in place',
